@@ -36,7 +36,8 @@ NONDET_CALLS = re.compile(
     r'|std::thread::current|std::thread::Thread::id|std::process::id'
     r'|std::env::(var|vars|var_os|vars_os|args|args_os|current_dir|temp_dir)'
     r'|std::(hash|collections::hash_map)::RandomState::new'
-    r'|std::fs::read_dir)')
+    r'|std::fs::read_dir'
+    r'|std::fs::Metadata::(modified|accessed|created)|std::os::unix::fs::MetadataExt::(mtime|atime|ctime)\w*)')
 INTERIOR = re.compile(r'(Cell<|RefCell<|Mutex<|RwLock<|Atomic[A-Z<]|OnceCell<|OnceLock<|LazyLock<|LazyCell<|Lazy<|LocalKey<|UnsafeCell<)')
 PIPELINE_CRATES = ('oal_model', 'oal_syntax', 'oal_compiler', 'oal_openapi')
 
